@@ -855,3 +855,4 @@ def check_push_initialises(chk, prog, unit, rule="P6"):
                           "field keeps what the previous user of that slot left there" % (f.name, tab["n"], fld["n"]),
                    proof="plain store to the new entry's `%s`" % fld["n"])
     return n
+
